@@ -165,10 +165,12 @@ def directed(tier):
     # ---- models: one per populate mode / unit representation / writer order
     D.append(_base_model(0))
     D.append(_base_model(1, populate='organize', first='yaml', to_file=True,
-                         units=dict(G.DEFAULT_UNITS, length='m', act_energy='kJ/mol', energy='kJ', pressure='Pa')))
+                         units=dict(G.DEFAULT_UNITS, length='m', act_energy='kJ/mol', energy='kJ', pressure='Pa',
+                                    quantity='mol')))
     D.append(_base_model(2, units_as='none', units=dict(G.DEFAULT_UNITS), motz_wise=False, fresh_second=True))
     D.append(_base_model(3, units_as='dict', first='yaml',
-                         units=dict(G.DEFAULT_UNITS, act_energy='J/mol', energy='J', quantity='molec', length='m')))
+                         units=dict(G.DEFAULT_UNITS, act_energy='J/mol', energy='J', quantity='mol', length='m',
+                                    mass='g')))
     m = _base_model(4, populate='incremental')
     m['phases'] = [p for p in m['phases'] if p['name'] != 'step']      # one interface: not hit by (a)
     m['species'] = [s for s in m['species'] if s['phase'] != 'step']
@@ -188,7 +190,8 @@ def directed(tier):
     D.append(_base_model(7, site_first=True, first='yaml'))                              # (e) .lower() on phase
     D.append(_base_model(8, kinds={'N2': 'Nasa9', 'N(T)': 'Nasa9'}))                     # Nasa9 in CTI
     D.append(_base_model(9, gas_names=['H2', 'NO'], first='yaml'))                       # YAML keyword name
-    D.append(_base_model(10, units=dict(G.DEFAULT_UNITS, time='min')))                   # time unit
+    D.append(_base_model(10, units=dict(G.DEFAULT_UNITS, time='min', quantity='mol', energy='kcal',
+                                         act_energy='kcal/mol')))                   # time unit
     D.append(_base_model(11, bep_unnamed=True))                                          # BEP without a name
     D.append(_base_model(12, bep_unnamed=True, first='yaml'))
     # single-phase models
@@ -360,7 +363,8 @@ def _quiet(fn, *a, **k):
         with contextlib.redirect_stderr(buf):
             return fn(*a, **k), buf.getvalue()
     except SystemExit as e:
-        raise _Rejected('sys.exit(%s): %s' % (e.code, buf.getvalue()[-600:]))
+        v = buf.getvalue()
+        raise _Rejected('sys.exit(%s): %s ... %s' % (e.code, v[:300], v[-400:]))
 
 
 def _rel(ctx, oracle, got, want, tol, mech, scale=None, **detail):
@@ -583,6 +587,8 @@ def _build(spec, ctx, check_history=True):
     M.phases = []
     if mode == 'organize':
         mech = {'file': 'history', 'rule': 'Y4', 'entity': 'phase', 'field': 'species', 'after': 'organize_phases'}
+        if spec['beps']:
+            mech['bep_named'] = all(b['name'] is not None for b in spec['beps'])
         phs = ctx.call('YH', mech, organize_phases, G.organize_data(spec), species=list(M.species_list),
                        reactions=list(M.reactions) or None, interactions=list(M.interactions) or None)
         if phs is core.NOVALUE:
@@ -622,14 +628,15 @@ def _build(spec, ctx, check_history=True):
             if check_history and not _check_live(ctx, live, model, elements_of, op[0], op[1], info):
                 return None
         ctx.cls('hist:default_args')
+        tracked = model
     # final state against the spec (all modes)
     model = {p['name']: list(p['species']) for p in spec['phases']}
     if mode == 'incremental':
         # order follows the operation sequence
         for k in model:
-            got = list(live[k].species_names)
-            if sorted(got) == sorted(model[k]):
-                model[k] = got
+            if sorted(tracked[k]) != sorted(model[k]):
+                raise core.HarnessError('operation sequence does not reach the target species of %s' % k)
+            model[k] = tracked[k]
     if check_history and not _check_live(ctx, live, model, elements_of, mode, None, info):
         return None
     return M
@@ -693,6 +700,15 @@ def _expected_rate(spec, i, M, T):
     return ('stick' if ads else 'Arrhenius'), A, b, max(0.0, d_act, d_rxn) * rt, scale * rt
 
 
+def _bep_order(spec):
+    """BEPs are written once each, in the order the reactions first use them."""
+    order = []
+    for r in spec['reactions']:
+        if r['ts'] and 'bep' in r['ts'] and r['ts']['bep'] not in order:
+            order.append(r['ts']['bep'])
+    return order
+
+
 def _bep_members(spec, b, direction, written_ids):
     return sorted(written_ids[i] for i, r in enumerate(spec['reactions'])
                   if r['ts'] and r['ts'].get('bep') == b and r['direction'] == direction)
@@ -736,45 +752,64 @@ def _writer_kwargs(spec, M):
     return kw
 
 
-def _diagnose(spec, M, method):
-    """which emitter raises on its own?  -> list of (entity, class, exc name, extra)"""
+def _diagnose(spec, M, method, writer_exc):
+    """which emitter raises on its own (same exception type as the writer)?  Emitters are tried in
+    the writer's order with the ids the writer would have assigned; the first entity kind that has a
+    failing member is the culprit.  -> list of (entity, class, extra)"""
     from pmutt import _force_pass_arguments
     from pmutt.omkm.units import Units
     u = Units(**spec['units'])
-    out = []
-    groups = (('phase', M.phases), ('species', M.species_list), ('interaction', M.interactions),
-              ('reaction', M.reactions), ('bep', M.beps))
-    for entity, objs in groups:
-        for o in objs:
-            try:
-                fn = getattr(o, method)
-                r = _force_pass_arguments(fn, units=u, T=spec['T'])
-                if method == 'to_cti':
-                    compile(r, '<emit>', 'exec')
-            except Exception as e:
-                extra = {}
-                if entity == 'reaction':
-                    extra['is_adsorption'] = bool(o.is_adsorption)
-                if entity == 'bep':
-                    extra['bep_named'] = o.name is not None
-                out.append((entity, type(o).__name__, type(e).__name__, extra))
-    seen, uniq = set(), []
-    for t in out:
-        k = (t[0], t[1], t[2], tuple(sorted(t[3].items())))
-        if k not in seen:
-            seen.add(k)
-            uniq.append(t)
+    restore = []
+    for k, o in enumerate(M.interactions):
+        if o.name is None:
+            o.name = 'i_%04d' % k
+            restore.append((o, 'name'))
+    for k, o in enumerate(M.reactions):
+        if o.id is None:
+            o.id = 'r_%04d' % k
+            restore.append((o, 'id'))
+    groups = (('interaction', M.interactions), ('reaction', M.reactions), ('phase', M.phases),
+              ('species', M.species_list), ('bep', M.beps))
+    uniq = []
+    try:
+        for entity, objs in groups:
+            seen = set()
+            for o in objs:
+                try:
+                    _force_pass_arguments(getattr(o, method), units=u, T=spec['T'])
+                except Exception as e:
+                    if type(e).__name__ != writer_exc:
+                        continue
+                    extra = {}
+                    if entity == 'reaction':
+                        extra['is_adsorption'] = bool(o.is_adsorption)
+                    if entity == 'bep':
+                        extra['bep_named'] = o.name is not None
+                    if entity == 'interaction':
+                        extra['quantity'] = spec['units']['quantity']
+                    if entity == 'phase' and spec['beps']:
+                        extra['bep_named'] = all(b['name'] is not None for b in spec['beps'])
+                    k = (type(o).__name__, tuple(sorted(extra.items())))
+                    if k not in seen:
+                        seen.add(k)
+                        uniq.append((entity, type(o).__name__, extra))
+            if uniq:
+                break
+    finally:
+        for o, attr in restore:
+            setattr(o, attr, None)
     return uniq
 
 
 def _fail_write(ctx, spec, M, fname, method, e):
-    culprits = _diagnose(spec, M, method)
+    exc = type(e).__name__
+    culprits = _diagnose(spec, M, method, exc)
     if not culprits:
-        ctx.fail('Y1', {'file': fname, 'rule': 'Y1', 'entity': 'file', 'exc': type(e).__name__},
+        ctx.fail('Y1', {'file': fname, 'rule': 'Y1', 'entity': 'file', 'exc': exc},
                  message=str(e)[:400], where=core._tb_where(e))
-    for entity, cls, exc, extra in culprits:
+    for entity, cls, extra in culprits:
         ctx.fail('Y1', dict({'file': fname, 'rule': 'Y1', 'entity': entity, 'class': cls, 'exc': exc}, **extra),
-                 message=str(e)[:400], where=core._tb_where(e), writer_exc=type(e).__name__)
+                 message=str(e)[:400], where=core._tb_where(e))
 
 
 _COUNTER = [0]
@@ -785,6 +820,7 @@ def _do_cti(spec, M, ctx):
     from pmutt.io.ctml_writer import convert
     kw = _writer_kwargs(spec, M)
     xml_path = None
+    rejected = None
     _COUNTER[0] += 1
     try:
         if spec['to_file']:
@@ -795,19 +831,17 @@ def _do_cti(spec, M, ctx):
                 xml_path = path[:-4] + '.xml'
             except _Rejected as e:
                 # the file itself was written before the converter refused it
-                ctx.fail('Y1', {'file': 'cti', 'rule': 'Y1', 'entity': 'file', 'validator': 'ctml_writer',
-                                'cause': _cause(str(e)), 'exc': 'SystemExit', 'via': 'write_cti'},
-                         message=str(e)[-400:])
+                rejected = e
                 xml_path = 'rejected'
             text = open(path).read()
         else:
             text, _ = _quiet(write_cti, **kw)
     except Exception as e:
         _fail_write(ctx, spec, M, 'cti', 'to_cti', e)
-        return
+        return False
     if not ctx.check('Y1', isinstance(text, str) and text, {'file': 'cti', 'rule': 'Y1', 'entity': 'file',
                                                            'field': 'returned_text'}):
-        return
+        return False
     cls_of = _species_class_by_name(spec)
     # ---- Y1a: valid sequence of directives
     try:
@@ -815,9 +849,11 @@ def _do_cti(spec, M, ctx):
         ctx.held('Y1')
         ctx.cls('cti:parsed')
         whole_ok = True
+        skip_names = set()
     except C.CTIInvalid as e:
         whole_ok = False
         doc, bad = C.evaluate_chunks(text)
+        skip_names = set()
         if not bad:
             ctx.fail('Y1', {'file': 'cti', 'rule': 'Y1', 'entity': 'file', 'exc': e.kind}, message=str(e)[:300])
         for head, err in bad:
@@ -828,17 +864,21 @@ def _do_cti(spec, M, ctx):
             if entity == 'species':
                 nm = head.split('name="')[1].split('"')[0] if 'name="' in head else None
                 m['class'] = cls_of.get(nm, '?')
+                skip_names.add(nm)
             ctx.fail('Y1', m, directive=head, message=str(err)[:300])
     for kind, key, val in doc.problems:
         ctx.fail('Y1', {'file': 'cti', 'rule': 'Y1', 'entity': 'units', 'field': key}, value=val)
     # ---- Y1b: accepted by pMuTT's own CTI -> XML converter, same counts
-    if whole_ok and xml_path != 'rejected':
+    if whole_ok and rejected is not None:
+        ctx.fail('Y1', {'file': 'cti', 'rule': 'Y1', 'entity': 'file', 'validator': 'ctml_writer',
+                        'cause': _cause(str(rejected)), 'exc': 'SystemExit'}, message=str(rejected)[-500:])
+    elif whole_ok:
         _ctml(spec, ctx, text, xml_path, convert)
     # ---- units directive states the requested system
     m = {'file': 'cti', 'rule': 'Y1', 'entity': 'units'}
     if ctx.check('Y1', len(doc.units) == 1, dict(m, field='count'), got=len(doc.units)):
         ctx.check('Y1', doc.units[0] == spec['units'], dict(m, field='value'), got=doc.units[0], want=spec['units'])
-    _cti_species(spec, ctx, doc)
+    _cti_species(spec, ctx, doc, skip_names)
     written_ids = _cti_reactions(spec, M, ctx, doc)
     int_ids = _cti_interactions(spec, ctx, doc)
     bep_ids = _cti_beps(spec, ctx, doc, written_ids)
@@ -883,3 +923,841 @@ def _ctml(spec, ctx, text, xml_path, convert):
     names = sorted(s.get('name') for s in root.findall('./speciesData/species'))
     ctx.check('Y1', names == sorted(s['name'] for s in spec['species']), dict(m, field='name', entity='species'),
               got=names)
+
+
+def _want_segments(s):
+    """[(kind, Tlo, Thi, coeffs)] a species spec stands for."""
+    if s['type'] == 'Nasa':
+        return [('NASA', s['T_low'], s['T_mid'], s['a_low']), ('NASA', s['T_mid'], s['T_high'], s['a_high'])]
+    if s['type'] == 'Nasa9':
+        return [('NASA9', n['T_low'], n['T_high'], n['a']) for n in sorted(s['nasas'], key=lambda n: n['T_low'])]
+    return [('Shomate', s['T_low'], s['T_high'], s['a'][:7])]
+
+
+def _cti_species(spec, ctx, doc, skip_names=()):
+    base = {'file': 'cti', 'rule': 'Y2', 'entity': 'species'}
+    names = [s['name'] for s in doc.species]
+    want_names = [s['name'] for s in spec['species'] if s['name'] not in skip_names]
+    ctx.check('Y2', sorted(names) == sorted(want_names), dict(base, field='each_once'),
+              got=names[:50], want=want_names[:50])
+    first = {}
+    for s in doc.species:
+        first.setdefault(s['name'], s)
+    for s in spec['species']:
+        m = dict(base, **{'class': s['type']})
+        w = first.get(s['name'])
+        if w is None:
+            continue                                  # reported by each_once (or by Y1 for its directive)
+        ctx.check('Y2', w['atoms'] == {k: float(v) for k, v in s['elements'].items()}, dict(m, field='composition'),
+                  got=w['atoms'], want=s['elements'])
+        if s['n_sites'] is None:
+            ctx.check('Y2', (not w['size_given']) or w['size'] == 1, dict(m, field='sites'), got=w['size'], want=None)
+        else:
+            ctx.check('Y2', w['size_given'] and w['size'] == s['n_sites'], dict(m, field='sites'),
+                      got=w['size'], want=s['n_sites'])
+        segs = _want_segments(s)
+        if not ctx.check('Y2', len(w['thermo']) == len(segs), dict(m, field='T_ranges', what='count'),
+                         got=len(w['thermo']), want=len(segs)):
+            continue
+        got_sorted = sorted(w['thermo'], key=lambda t: t.Trange[0])
+        for t, (kind, lo, hi, a) in zip(got_sorted, segs):
+            ctx.check('Y2', t.kind == kind, dict(m, field='thermo_directive'), got=t.kind, want=kind)
+            ctx.check('Y2', t.Trange == [lo, hi], dict(m, field='T_ranges'), got=t.Trange, want=[lo, hi])
+            if ctx.check('Y2', len(t.coeffs) == len(a), dict(m, field='coefficients', what='count'),
+                         got=len(t.coeffs), want=len(a)):
+                for k, (g, x) in enumerate(zip(t.coeffs, a)):
+                    _rel(ctx, 'Y2', g, x, TOL_CTI9, dict(m, field='coefficients'), index=k, name=s['name'])
+
+
+def _cti_reactions(spec, M, ctx, doc):
+    """-> list of written ids (by reaction index) or None when the reactions cannot be matched."""
+    base = {'file': 'cti', 'rule': 'Y3', 'entity': 'reaction'}
+    n = len(spec['reactions'])
+    if not ctx.check('Y3', len(doc.reactions) == n, dict(base, field='each_once'), got=len(doc.reactions), want=n):
+        return None
+    if n == 0:
+        return []
+    ids = [r['id'] for r in doc.reactions]
+    ctx.check('Y3', len(set(ids)) == n and all(ids), dict(base, field='id', what='unique'), got=ids[:60])
+    ctx.check('Y3', doc.motz_wise == [spec['motz_wise']], dict(base, field='motz_wise'), got=doc.motz_wise,
+              want=spec['motz_wise'])
+    nonsec = spec['units']['time'] != 's'
+    for i, (rx, w) in enumerate(zip(spec['reactions'], doc.reactions)):
+        ts = rx['ts']
+        m = dict(base, is_adsorption=rx['is_adsorption'],
+                 ts='none' if ts is None else ('bep' if 'bep' in ts else 'species'))
+        want_r, want_p = {}, {}
+        for nme, st in rx['reactants']:
+            want_r[nme] = want_r.get(nme, 0.0) + st
+        for nme, st in rx['products']:
+            want_p[nme] = want_p.get(nme, 0.0) + st
+        ctx.check('Y3', w['reactants'] == want_r and w['products'] == want_p and w['reversible'],
+                  dict(m, field='equation'), got=w['equation'], want=[want_r, want_p])
+        ctx.check('Y3', w['kind'] == 'surface_reaction', dict(m, field='directive'), got=w['kind'])
+        if rx['id'] is not None:
+            ctx.check('Y3', w['id'] == rx['id'], dict(m, field='id', what='user_id_kept'), got=w['id'], want=rx['id'])
+            ctx.cls('ids:user')
+        else:
+            ctx.cls('ids:auto')
+        try:
+            kind, A, b, Ea, sc = _expected_rate(spec, i, M, spec['T'])
+        except Exception as e:
+            ctx.inconc('Y3', 'reference rate failed: ' + type(e).__name__, message=str(e)[:200])
+            continue
+        rate = w['rate']
+        ctx.check('Y3', rate.kind == kind, dict(m, field='rate_kind'), got=rate.kind, want=kind)
+        src = 'given' if (rx['A'] is not None or rx['is_adsorption']) else 'computed'
+        mA = dict(base, is_adsorption=rx['is_adsorption'], field='A', source=src)
+        if src == 'computed' and nonsec:
+            mA['time_unit'] = 'not_s'
+        _rel(ctx, 'Y3', rate.A, A, TOL_CTI_RATE if src == 'computed' else 1e-5, mA, eq=w['equation'])
+        _rel(ctx, 'Y3', rate.b, b, TOL_EXACT, dict(base, is_adsorption=rx['is_adsorption'], field='b'))
+        _rel(ctx, 'Y3', rate.E, Ea, TOL_CTI_RATE, dict(m, field='Ea', source='given' if rx['Ea'] is not None
+                                                      else 'computed'), scale=sc, eq=w['equation'])
+    return ids
+
+
+def _cti_interactions(spec, ctx, doc):
+    base = {'file': 'cti', 'rule': 'Y5', 'entity': 'interaction'}
+    n = len(spec['interactions'])
+    if not ctx.check('Y5', len(doc.interactions) == n, dict(base, field='each_once'), got=len(doc.interactions),
+                     want=n):
+        return None
+    if n:
+        ctx.cls('interactions:some')
+    u = spec['units']
+    ids = [w['id'] for w in doc.interactions]
+    if n:
+        ctx.check('Y5', len(set(ids)) == n and all(ids) and 'None' not in ids, dict(base, field='id', what='unique'),
+                  got=ids)
+    for it, w in zip(spec['interactions'], doc.interactions):
+        ctx.check('Y5', w['species'] == [it['name_i'], it['name_j']], dict(base, field='members'),
+                  got=w['species'], want=[it['name_i'], it['name_j']])
+        ctx.check('Y5', w['coverage_thresholds'] == it['intervals'], dict(base, field='coverage_thresholds'),
+                  got=w['coverage_thresholds'], want=it['intervals'])
+        if ctx.check('Y5', len(w['strengths']) == len(it['slopes']), dict(base, field='strengths', what='count')):
+            for g, s in zip(w['strengths'], it['slopes']):
+                _rel(ctx, 'Y5', g, C.interaction_strength(s, u['energy'], u['quantity']), TOL_CONV,
+                     dict(base, field='strengths'))
+        if it['name'] is not None:
+            ctx.check('Y5', w['id'] == it['name'], dict(base, field='id', what='user_id_kept'), got=w['id'])
+    return ids
+
+
+def _cti_beps(spec, ctx, doc, written_ids):
+    base = {'file': 'cti', 'rule': 'Y5', 'entity': 'bep'}
+    n = len(spec['beps'])
+    if not ctx.check('Y5', len(doc.beps) == n, dict(base, field='each_once'), got=len(doc.beps), want=n):
+        return None
+    u = spec['units']
+    order = _bep_order(spec)
+    ids_written = [w['id'] for w in doc.beps]
+    ids = [None] * n
+    for b, w in zip(order, doc.beps):
+        ids[b] = w['id']
+    for b, w in zip(order, doc.beps):
+        bp = spec['beps'][b]
+        m = dict(base, bep_named=bp['name'] is not None)
+        if bp['name'] is not None:
+            ctx.check('Y5', w['id'] == bp['name'], dict(m, field='id'), got=w['id'], want=bp['name'])
+        else:
+            ctx.check('Y5', w['id'] not in ('', 'None') and ids_written.count(w['id']) == 1, dict(m, field='id'),
+                      got=w['id'])
+        _rel(ctx, 'Y5', w['slope'], bp['slope'], TOL_EXACT, dict(m, field='slope'))
+        _rel(ctx, 'Y5', w['intercept'], C.act_energy(bp['intercept'], u['act_energy']), TOL_CONV,
+             dict(m, field='intercept'))
+        ctx.check('Y5', w['direction'] == bp['direction'], dict(m, field='direction'), got=w['direction'])
+        if written_ids is None:
+            continue
+        known = set(written_ids)
+        for d in ('cleavage', 'synthesis'):
+            mm = dict(m, field='members', direction=d)
+            try:
+                got = sorted(C.expand_ids(w[d + '_reactions'], known))
+            except C.CTIInvalid as e:
+                ctx.fail('Y5', dict(mm, exc='CTIInvalid'), message=str(e)[:200])
+                continue
+            want = _bep_members(spec, b, d, written_ids)
+            ctx.check('Y5', got == want, mm, got=got, want=want, written=w[d + '_reactions'])
+    return ids
+
+
+def _cti_phases(spec, ctx, doc, written_ids, int_ids, bep_ids):
+    base = {'file': 'cti', 'rule': 'Y4', 'entity': 'phase'}
+    names = [p['name'] for p in doc.phases]
+    want_names = [p['name'] for p in spec['phases']]
+    ctx.cls('phases:%d' % len(spec['phases']))
+    if not ctx.check('Y4', sorted(names) == sorted(want_names), dict(base, field='each_once'), got=names,
+                     want=want_names):
+        return
+    u = spec['units']
+    byname = {p['name']: p for p in doc.phases}
+    kind_of = {'IdealGas': 'ideal_gas', 'StoichSolid': 'stoichiometric_solid',
+               'InteractingInterface': 'interacting_interface'}
+    for p in spec['phases']:
+        w = byname[p['name']]
+        m = dict(base, **{'class': p['type']})
+        ex = _phase_expect(spec, p, written_ids, int_ids, bep_ids)
+        ctx.check('Y4', w['kind'] == kind_of[p['type']], dict(m, field='directive'), got=w['kind'])
+        ctx.check('Y4', sorted(w['species']) == sorted(p['species']), dict(m, field='species'),
+                  got=w['species'][:50], want=p['species'][:50])
+        ctx.check('Y4', set(w['elements']) == ex['elements'] and len(w['elements']) == len(ex['elements']),
+                  dict(m, field='elements'), got=w['elements'], want=sorted(ex['elements']))
+        if p.get('note') is not None:
+            ctx.check('Y4', w.get('note') == p['note'], dict(m, field='note'), got=w.get('note'), want=p['note'])
+        if p['type'] == 'StoichSolid':
+            if ctx.check('Y4', 'density' in w, dict(m, field='density', what='missing')):
+                _rel(ctx, 'Y4', w['density'], C.mass_density(p['density'], u['mass'], u['length']), TOL_CONV,
+                     dict(m, field='density'))
+        if p['type'] == 'InteractingInterface':
+            if ctx.check('Y4', 'site_density' in w, dict(m, field='site_density', what='missing')):
+                _rel(ctx, 'Y4', w['site_density'], C.site_density(p['site_density'], u['quantity'], u['length']),
+                     TOL_CONV, dict(m, field='site_density'))
+            ctx.check('Y4', w.get('phases', []) == p['phases'], dict(m, field='phases'), got=w.get('phases'),
+                      want=p['phases'])
+        for fld, known in (('reactions', written_ids), ('interactions', int_ids)):
+            if ex[fld] is None or known is None:
+                continue
+            if p['type'] != 'InteractingInterface' and fld == 'interactions':
+                continue
+            try:
+                got = sorted(C.expand_ids([e for e in w.get(fld, []) if e not in ('none',)], set(known)))
+            except C.CTIInvalid as e:
+                ctx.fail('Y4', dict(m, field=fld, exc='CTIInvalid'), message=str(e)[:200])
+                continue
+            want = ex[fld] if p['type'] == 'InteractingInterface' else []
+            ctx.check('Y4', got == want, dict(m, field=fld), got=got, want=want, written=w.get(fld))
+        if p['type'] == 'InteractingInterface' and ex['beps'] is not None:
+            ctx.check('Y4', sorted(w.get('beps', [])) == ex['beps'], dict(m, field='beps'), got=w.get('beps'),
+                      want=ex['beps'])
+
+
+# ====================================================================== YAML loading
+class _Tagged:
+    """node carrying a python/* tag that yaml.safe_load refuses."""
+
+    def __init__(self, tag, value):
+        self.tag, self.value = tag, value
+
+    def __repr__(self):
+        return '<%s %r>' % (self.tag, self.value)
+
+
+def _tolerant_loader():
+    import yaml
+
+    class L(yaml.SafeLoader):
+        pass
+
+    def multi(loader, suffix, node):
+        if isinstance(node, yaml.ScalarNode):
+            v = loader.construct_scalar(node)
+        elif isinstance(node, yaml.SequenceNode):
+            v = loader.construct_sequence(node, deep=True)
+        else:
+            v = loader.construct_mapping(node, deep=True)
+        return _Tagged('python/' + suffix.split(':')[0], v)
+    L.add_multi_constructor('tag:yaml.org,2002:python/', multi)
+    return L
+
+
+def _load_yaml(text):
+    """-> (doc, safe_ok, error name)"""
+    import yaml
+    try:
+        return yaml.safe_load(text), True, None
+    except yaml.YAMLError as e:
+        err = type(e).__name__
+    try:
+        return yaml.load(text, Loader=_tolerant_loader()), False, err
+    except yaml.YAMLError as e:
+        return None, False, type(e).__name__
+
+
+def _tagged_paths(node, path=()):
+    if isinstance(node, _Tagged):
+        yield path, node
+    elif isinstance(node, dict):
+        for k, v in node.items():
+            yield from _tagged_paths(v, path + (str(k),))
+    elif isinstance(node, list):
+        for i, v in enumerate(node):
+            yield from _tagged_paths(v, path + (i,))
+
+
+def _name_class(name):
+    return 'yaml_bool' if str(name).lower() in ('yes', 'no', 'on', 'off', 'true', 'false', 'null', '~') else 'plain'
+
+
+# ====================================================================== model: thermo YAML file
+def _do_yaml(spec, M, ctx):
+    from pmutt.io.omkm import write_thermo_yaml
+    kw = _writer_kwargs(spec, M)
+    _COUNTER[0] += 1
+    try:
+        if spec['to_file']:
+            path = os.path.join(ctx.tmpdir, 'm%d.yaml' % _COUNTER[0])
+            _quiet(write_thermo_yaml, filename=path, **kw)
+            text = open(path).read()
+        else:
+            text, _ = _quiet(write_thermo_yaml, **kw)
+    except Exception as e:
+        _fail_write(ctx, spec, M, 'thermo_yaml', 'to_omkm_yaml', e)
+        return False
+    doc, safe_ok, err = _load_yaml(text)
+    base = {'file': 'thermo_yaml', 'rule': 'Y1'}
+    if doc is None or not isinstance(doc, dict):
+        ctx.fail('Y1', dict(base, entity='file', exc=err or 'not_a_mapping'), head=text[:300])
+        return
+    cls_of = _species_class_by_name(spec)
+    if safe_ok:
+        ctx.held('Y1')
+    else:
+        found = False
+        for path, node in _tagged_paths(doc):
+            found = True
+            entity = {'species': 'species', 'reactions': 'reaction', 'phases': 'phase', 'beps': 'bep',
+                      'interactions': 'interaction'}.get(path[0], 'file')
+            m = dict(base, entity=entity, field=str(path[-1]), exc=err, tag=node.tag)
+            if entity == 'species':
+                try:
+                    m['class'] = cls_of.get(doc['species'][path[1]].get('name'), '?')
+                except Exception:
+                    pass
+            ctx.fail('Y1', m, path=list(path), value=repr(node.value)[:80])
+        if not found:
+            ctx.fail('Y1', dict(base, entity='file', exc=err), head=text[:300])
+    ctx.cls('yaml:parsed')
+    want_sections = {'units', 'phases', 'species'}
+    if kw['reactions'] is not None:
+        want_sections.add('reactions')
+    if spec['beps']:
+        want_sections.add('beps')
+    if kw['lateral_interactions'] is not None:
+        want_sections.add('interactions')
+    ctx.check('Y1', set(doc) == want_sections, dict(base, entity='file', field='sections'), got=sorted(doc),
+              want=sorted(want_sections))
+    u = spec['units']
+    want_u = {'mass': u['mass'], 'length': u['length'], 'time': u['time'], 'quantity': u['quantity'],
+              'energy': u['energy'], 'activation-energy': u['act_energy'], 'pressure': u['pressure']}
+    ctx.check('Y1', doc.get('units') == want_u, dict(base, entity='units', field='value'), got=doc.get('units'),
+              want=want_u)
+    _yaml_species(spec, ctx, doc.get('species') or [])
+    written_ids = _yaml_reactions(spec, M, ctx, doc.get('reactions') or [])
+    _yaml_interactions(spec, ctx, doc.get('interactions') or [])
+    _yaml_beps(spec, ctx, doc.get('beps') or [], written_ids)
+    _yaml_phases(spec, ctx, doc.get('phases') or [])
+
+
+def _yaml_species(spec, ctx, ys):
+    base = {'file': 'thermo_yaml', 'rule': 'Y2', 'entity': 'species'}
+    n = len(spec['species'])
+    if not ctx.check('Y2', isinstance(ys, list) and len(ys) == n, dict(base, field='each_once'),
+                     got=len(ys) if isinstance(ys, list) else repr(ys)[:60], want=n):
+        return
+    model_name = {'Nasa': 'NASA7', 'Nasa9': 'NASA9', 'Shomate': 'Shomate'}
+    for s, w in zip(spec['species'], ys):
+        m = dict(base, **{'class': s['type']})
+        if not isinstance(w, dict):
+            ctx.fail('Y2', dict(m, field='entry'))
+            continue
+        ctx.check('Y2', w.get('name') == s['name'], dict(m, field='name', name_class=_name_class(s['name'])),
+                  got=w.get('name'), want=s['name'])
+        ctx.check('Y2', w.get('composition') == s['elements'], dict(m, field='composition'),
+                  got=w.get('composition'), want=s['elements'])
+        if s['n_sites'] is None:
+            ctx.check('Y2', 'sites' not in w or w['sites'] == 1, dict(m, field='sites'), got=w.get('sites'))
+        else:
+            g = w.get('sites')
+            ctx.check('Y2', not isinstance(g, (_Tagged, list, bool)) and g == s['n_sites'], dict(m, field='sites'),
+                      got=repr(g), want=s['n_sites'])
+        th = w.get('thermo')
+        if not ctx.check('Y2', isinstance(th, dict), dict(m, field='thermo')):
+            continue
+        ctx.check('Y2', th.get('model') == model_name[s['type']], dict(m, field='thermo_model'), got=th.get('model'))
+        segs = _want_segments(s)
+        want_T = [segs[0][1]] + [sg[2] for sg in segs]
+        ctx.check('Y2', th.get('temperature-ranges') == want_T, dict(m, field='T_ranges'),
+                  got=th.get('temperature-ranges'), want=want_T)
+        data = th.get('data')
+        if not ctx.check('Y2', isinstance(data, list) and len(data) == len(segs),
+                         dict(m, field='coefficients', what='segments'), got=repr(data)[:80]):
+            continue
+        for row, sg in zip(data, segs):
+            if ctx.check('Y2', isinstance(row, list) and len(row) == len(sg[3]),
+                         dict(m, field='coefficients', what='count'), got=repr(row)[:80], want=len(sg[3])):
+                for k, (g, x) in enumerate(zip(row, sg[3])):
+                    _rel(ctx, 'Y2', g, x, TOL_EXACT, dict(m, field='coefficients'), index=k, name=s['name'])
+
+
+def _yaml_reactions(spec, M, ctx, yr):
+    base = {'file': 'thermo_yaml', 'rule': 'Y3', 'entity': 'reaction'}
+    n = len(spec['reactions'])
+    if not ctx.check('Y3', isinstance(yr, list) and len(yr) == n, dict(base, field='each_once'),
+                     got=len(yr) if isinstance(yr, list) else repr(yr)[:60], want=n):
+        return None
+    if n == 0:
+        return []
+    ids = [r.get('id') if isinstance(r, dict) else None for r in yr]
+    ctx.check('Y3', len(set(map(str, ids))) == n and all(i not in (None, '', 'None') for i in ids),
+              dict(base, field='id', what='unique'), got=ids[:60])
+    u = spec['units']
+    gas = set()
+    for p in spec['phases']:
+        if p['type'] == 'IdealGas':
+            gas |= set(p['species'])
+    nonsec = u['time'] != 's'
+    for i, (rx, w) in enumerate(zip(spec['reactions'], yr)):
+        ts = rx['ts']
+        m = dict(base, is_adsorption=rx['is_adsorption'],
+                 ts='none' if ts is None else ('bep' if 'bep' in ts else 'species'))
+        if not isinstance(w, dict):
+            ctx.fail('Y3', dict(m, field='entry'))
+            continue
+        want_r, want_p = {}, {}
+        for nme, st in rx['reactants']:
+            want_r[nme] = want_r.get(nme, 0.0) + st
+        for nme, st in rx['products']:
+            want_p[nme] = want_p.get(nme, 0.0) + st
+        try:
+            r_, p_, rev = C.parse_equation(w.get('equation'))
+            ctx.check('Y3', r_ == want_r and p_ == want_p and rev, dict(m, field='equation'),
+                      got=w.get('equation'), want=[want_r, want_p])
+        except C.CTIInvalid as e:
+            ctx.fail('Y3', dict(m, field='equation', exc='unparsable'), got=repr(w.get('equation'))[:100])
+        if rx['id'] is not None:
+            ctx.check('Y3', w.get('id') == rx['id'], dict(m, field='id', what='user_id_kept'), got=w.get('id'))
+        try:
+            kind, A, b, Ea, sc = _expected_rate(spec, i, M, spec['T'])
+        except Exception as e:
+            ctx.inconc('Y3', 'reference rate failed: ' + type(e).__name__, message=str(e)[:200])
+            continue
+        key = 'sticking-coefficient' if rx['is_adsorption'] else 'rate-constant'
+        other = 'rate-constant' if rx['is_adsorption'] else 'sticking-coefficient'
+        rc = w.get(key)
+        if not ctx.check('Y3', isinstance(rc, dict) and other not in w, dict(m, field='rate_kind'), got=sorted(w)):
+            continue
+        if rx['is_adsorption']:
+            gs = [nme for nme, _ in rx['reactants'] if nme in gas]
+            ctx.check('Y3', w.get('sticking-species') == gs[0],
+                      dict(base, is_adsorption=True, field='sticking-species', name_class=_name_class(gs[0])),
+                      got=w.get('sticking-species'), want=gs[0])
+            ctx.check('Y3', w.get('Motz-Wise') is spec['motz_wise'], dict(m, field='motz_wise'),
+                      got=repr(w.get('Motz-Wise')), want=spec['motz_wise'])
+        src = 'given' if (rx['A'] is not None or rx['is_adsorption']) else 'computed'
+        mA = dict(base, is_adsorption=rx['is_adsorption'], field='A', source=src)
+        if src == 'computed' and nonsec:
+            mA['time_unit'] = 'not_s'
+        _rel(ctx, 'Y3', rc.get('A'), A, TOL_CONV if src == 'computed' else TOL_EXACT, mA, eq=w.get('equation'))
+        _rel(ctx, 'Y3', rc.get('b'), b, TOL_EXACT, dict(base, is_adsorption=rx['is_adsorption'], field='b'))
+        mE = dict(m, field='Ea', source='given' if rx['Ea'] is not None else 'computed')
+        sp = _split_unit(rc.get('Ea'))
+        if ctx.check('Y3', sp is not None, dict(mE, what='value_with_unit'), got=repr(rc.get('Ea'))[:60]):
+            ctx.check('Y3', sp[1] == u['act_energy'], dict(mE, what='unit'), got=sp[1], want=u['act_energy'])
+            _rel(ctx, 'Y3', sp[0], Ea, TOL_CONV, mE, scale=sc, eq=w.get('equation'))
+    return ids
+
+
+def _yaml_interactions(spec, ctx, yi):
+    base = {'file': 'thermo_yaml', 'rule': 'Y5', 'entity': 'interaction'}
+    n = len(spec['interactions'])
+    if not ctx.check('Y5', isinstance(yi, list) and len(yi) == n, dict(base, field='each_once'),
+                     got=len(yi) if isinstance(yi, list) else repr(yi)[:60], want=n):
+        return
+    u = spec['units']
+    ids = [w.get('id') if isinstance(w, dict) else None for w in yi]
+    if n:
+        ctx.check('Y5', len(set(map(str, ids))) == n and all(i not in (None, '', 'None') for i in ids),
+                  dict(base, field='id', what='unique'), got=ids)
+    want_unit = '%s/%s' % (u['energy'], u['quantity'])
+    kcal_mol = (u['energy'], u['quantity']) == ('kcal', 'mol')
+    for it, w in zip(spec['interactions'], yi):
+        if not isinstance(w, dict):
+            ctx.fail('Y5', dict(base, field='entry'))
+            continue
+        ctx.check('Y5', w.get('species') == [it['name_i'], it['name_j']], dict(base, field='members'),
+                  got=w.get('species'), want=[it['name_i'], it['name_j']])
+        ctx.check('Y5', w.get('coverage-threshold') == it['intervals'], dict(base, field='coverage_thresholds'),
+                  got=w.get('coverage-threshold'), want=it['intervals'])
+        st = w.get('strength')
+        if ctx.check('Y5', isinstance(st, list) and len(st) == len(it['slopes']),
+                     dict(base, field='strengths', what='count'), got=repr(st)[:80]):
+            for g, s in zip(st, it['slopes']):
+                sp = _split_unit(g)
+                if not ctx.check('Y5', sp is not None, dict(base, field='strengths', what='value_with_unit'),
+                                 got=repr(g)[:60]):
+                    continue
+                ctx.check('Y5', sp[1] == want_unit, dict(base, field='strengths', what='unit'), got=sp[1],
+                          want=want_unit)
+                _rel(ctx, 'Y5', sp[0], C.interaction_strength(s, u['energy'], u['quantity']), TOL_CONV,
+                     dict(base, field='strengths', what='value', unit_is_kcal_per_mol=kcal_mol), slope_kcal_mol=s)
+        if it['name'] is not None:
+            ctx.check('Y5', w.get('id') == it['name'], dict(base, field='id', what='user_id_kept'), got=w.get('id'))
+
+
+def _yaml_beps(spec, ctx, yb, written_ids):
+    base = {'file': 'thermo_yaml', 'rule': 'Y5', 'entity': 'bep'}
+    n = len(spec['beps'])
+    if not ctx.check('Y5', isinstance(yb, list) and len(yb) == n, dict(base, field='each_once'),
+                     got=len(yb) if isinstance(yb, list) else repr(yb)[:60], want=n):
+        return
+    if n:
+        ctx.cls('ts:bep')
+    u = spec['units']
+    ids = [w.get('id') if isinstance(w, dict) else None for w in yb]
+    order = _bep_order(spec)
+    for b, w in zip(order, yb):
+        bp = spec['beps'][b]
+        m = dict(base, bep_named=bp['name'] is not None)
+        if not isinstance(w, dict):
+            ctx.fail('Y5', dict(m, field='entry'))
+            continue
+        if bp['name'] is not None:
+            ctx.check('Y5', w.get('id') == bp['name'], dict(m, field='id'), got=w.get('id'), want=bp['name'])
+        else:
+            ctx.check('Y5', w.get('id') not in (None, '', 'None') and ids.count(w.get('id')) == 1, dict(m, field='id'),
+                      got=w.get('id'))
+        _rel(ctx, 'Y5', w.get('slope'), bp['slope'], TOL_EXACT, dict(m, field='slope'))
+        sp = _split_unit(w.get('intercept'))
+        if ctx.check('Y5', sp is not None, dict(m, field='intercept', what='value_with_unit'),
+                     got=repr(w.get('intercept'))[:60]):
+            ctx.check('Y5', sp[1] == u['act_energy'], dict(m, field='intercept', what='unit'), got=sp[1])
+            _rel(ctx, 'Y5', sp[0], C.act_energy(bp['intercept'], u['act_energy']), TOL_CONV,
+                 dict(m, field='intercept'))
+        ctx.check('Y5', w.get('direction') == bp['direction'], dict(m, field='direction'), got=w.get('direction'))
+        if written_ids is None:
+            continue
+        known = set(map(str, written_ids))
+        for d in ('cleavage', 'synthesis'):
+            mm = dict(m, field='members', direction=d)
+            raw = w.get(d + '-reactions', [])
+            try:
+                got = sorted(C.expand_ids([str(x).strip('"') for x in raw], known))
+            except (C.CTIInvalid, TypeError) as e:
+                ctx.fail('Y5', dict(mm, exc='unparsable'), got=repr(raw)[:100])
+                continue
+            want = sorted(map(str, _bep_members(spec, b, d, written_ids)))
+            ctx.check('Y5', got == want, mm, got=got, want=want, written=raw)
+
+
+def _yaml_phases(spec, ctx, yp):
+    base = {'file': 'thermo_yaml', 'rule': 'Y4', 'entity': 'phase'}
+    n = len(spec['phases'])
+    if not ctx.check('Y4', isinstance(yp, list) and len(yp) == n, dict(base, field='each_once'),
+                     got=len(yp) if isinstance(yp, list) else repr(yp)[:60], want=n):
+        return
+    u = spec['units']
+    yaml_bool_names = any(_name_class(s['name']) != 'plain' for s in spec['species'])
+    for p, w in zip(spec['phases'], yp):
+        m = dict(base, **{'class': p['type']})
+        if not isinstance(w, dict):
+            ctx.fail('Y4', dict(m, field='entry'))
+            continue
+        ex = _phase_expect(spec, p, None, None, None)
+        ctx.check('Y4', w.get('name') == p['name'], dict(m, field='name'), got=w.get('name'), want=p['name'])
+        ws = w.get('species')
+        ok = isinstance(ws, list) and sorted(map(str, ws)) == sorted(p['species'])
+        mm = dict(m, field='species')
+        if yaml_bool_names and p['type'] == 'IdealGas':
+            mm['name_class'] = 'yaml_bool'
+        ctx.check('Y4', ok, mm, got=repr(ws)[:200], want=p['species'][:50])
+        we = w.get('elements')
+        ctx.check('Y4', isinstance(we, list) and set(we) == ex['elements'] and len(we) == len(ex['elements']),
+                  dict(m, field='elements'), got=repr(we)[:100], want=sorted(ex['elements']))
+        if p['type'] == 'InteractingInterface':
+            sp = _split_unit(w.get('site-density'))
+            if ctx.check('Y4', sp is not None, dict(m, field='site_density', what='value_with_unit'),
+                         got=repr(w.get('site-density'))[:60]):
+                wu = '%s/%s^2' % (u['quantity'], u['length'])
+                ctx.check('Y4', sp[1] == wu, dict(m, field='site_density', what='unit'), got=sp[1], want=wu)
+                _rel(ctx, 'Y4', sp[0], C.site_density(p['site_density'], u['quantity'], u['length']), TOL_CONV,
+                     dict(m, field='site_density'))
+            has_rx = any(r['phase'] == p['name'] for r in spec['reactions'])
+            has_int = any(r['phase'] == p['name'] for r in spec['interactions'])
+            ctx.check('Y4', (w.get('reactions') != 'none') == has_rx, dict(m, field='reactions_flag'),
+                      got=w.get('reactions'), want=has_rx)
+            ctx.check('Y4', (w.get('interactions') != 'none') == has_int, dict(m, field='interactions_flag'),
+                      got=w.get('interactions'), want=has_int)
+            ctx.check('Y4', (w.get('beps') != 'none') == (ex['n_beps'] > 0), dict(m, field='beps_flag'),
+                      got=w.get('beps'), want=ex['n_beps'])
+
+
+# ====================================================================== reactor YAML
+def _flatten(node, path=''):
+    """leaf paths of nested mappings (lists and tagged nodes are leaves)."""
+    out = {}
+    if isinstance(node, dict):
+        for k, v in node.items():
+            p = '%s.%s' % (path, k) if path else str(k)
+            if isinstance(v, dict):
+                out.update(_flatten(v, p))
+            else:
+                out[p] = v
+    return out
+
+
+def _reactor_phase_objects():
+    pool = _pool_species(6)
+    IG, SS, II = G.phase_class('IdealGas'), G.phase_class('StoichSolid'), G.phase_class('InteractingInterface')
+    gas = IG(name='gas', species=[pool[0], pool[1]], initial_state={'sp0': 0.75, 'sp1': 0.25})
+    bulk = SS(name='bulk', species=[pool[3]], density=21.4)
+    t = II(name='terrace', species=[pool[2], pool[4]], site_density=2e-9, phases=[gas, bulk],
+           initial_state={'sp2': 1.0})
+    s = II(name='step', species=[pool[5]], site_density=1e-9, phases=[gas, bulk], initial_state={'sp5': 1.0})
+    want = {'gas': [{'name': 'gas', 'initial_state': {'sp0': 0.75, 'sp1': 0.25}}],
+            'bulk': [{'name': 'bulk', 'initial_state': None}],
+            'surfaces': [{'name': 'terrace', 'initial_state': {'sp2': 1.0}},
+                         {'name': 'step', 'initial_state': {'sp5': 1.0}}]}
+    return [gas, bulk, t, s], want
+
+
+def _parse_state(s):
+    out = {}
+    for tok in str(s).strip().strip('"').split(','):
+        k, _, v = tok.strip().rpartition(':')
+        out[k] = float(v)
+    return out
+
+
+def _unit_string(template, u):
+    return template.format(**u)
+
+
+def _opt_mech(o, d, units_given, **kw):
+    return dict({'file': 'reactor_yaml', 'rule': 'Y6', 'entity': 'option', 'field': o, 'value_type': d['t'],
+                 'units_given': units_given,
+                 'unit_bearing': G.REACTOR_OPTIONS[o][1] is not None}, **kw)
+
+
+def _value_ok(ctx, o, d, leaf, u, units_given):
+    """one supplied option against the leaf the file holds."""
+    path, template, fam, _ = G.REACTOR_OPTIONS[o]
+    t, v = d['t'], d['v']
+    m = _opt_mech(o, d, units_given)
+
+    def one(leaf, v, t):
+        if isinstance(leaf, _Tagged):
+            return ctx.fail('Y6', dict(m, what='python_tag'), tag=leaf.tag)
+        if t == 'bool':
+            return ctx.check('Y6', leaf is v, dict(m, what='value'), got=repr(leaf), want=v)
+        if t in ('str', 'strlist_units', 'strlist') and not (t == 'str' and False):
+            if t == 'str' and template is None:
+                return ctx.check('Y6', leaf == v, dict(m, what='value'), got=repr(leaf), want=v)
+            if t == 'strlist':
+                return ctx.check('Y6', leaf == v, dict(m, what='value'), got=repr(leaf), want=v)
+            # string with units: verbatim
+            return ctx.check('Y6', leaf == v, dict(m, what='value'), got=repr(leaf), want=v)
+        num = float(v)
+        if template is None:
+            return ctx.check('Y6', isinstance(leaf, (int, float)) and not isinstance(leaf, bool) and float(leaf) == num,
+                             dict(m, what='value'), got=repr(leaf), want=num)
+        sp = _split_unit(leaf)
+        if units_given:
+            if not ctx.check('Y6', sp is not None, dict(m, what='value_with_unit'), got=repr(leaf), want=num):
+                return False
+            ok = ctx.check('Y6', sp[0] == num, dict(m, what='value'), got=sp[0], want=num)
+            return ctx.check('Y6', sp[1] == _unit_string(template, u), dict(m, what='unit'), got=sp[1],
+                             want=_unit_string(template, u)) and ok
+        # no unit system given: SI is implied -> bare number (or number + SI unit)
+        if sp is not None:
+            si = _unit_string(template, {'length': 'm', 'time': 's', 'mass': 'kg', 'pressure': 'Pa'})
+            return ctx.check('Y6', sp[0] == num and sp[1] == si, dict(m, what='value'), got=repr(leaf), want=num)
+        return ctx.check('Y6', isinstance(leaf, (int, float)) and not isinstance(leaf, bool) and float(leaf) == num,
+                         dict(m, what='value'), got=repr(leaf), want=num)
+
+    if t.startswith('list:') or t in ('strlist_units',):
+        et = t[5:] if t.startswith('list:') else 'str'
+        if not ctx.check('Y6', isinstance(leaf, list) and len(leaf) == len(v), dict(m, what='list_length'),
+                         got=repr(leaf)[:100], want=len(v)):
+            return
+        for lf, x in zip(leaf, v):
+            one(lf, x, et if et != 'str' else 'strlist_units')
+        return
+    one(leaf, v, t)
+
+
+def _run_reactor(spec, ctx):
+    from pmutt.io.omkm import write_yaml
+    u = spec['units']
+    units_given = u is not None
+    ctx.cls('opt:units_given' if units_given else 'opt:units_omitted')
+    if len(spec['options']) >= 3:
+        ctx.nontrivial()
+
+    def units_obj():
+        if u is None:
+            return None
+        return G.units_arg({'units': u, 'units_as': spec['units_as']})
+
+    for o, d in spec['options'].items():
+        t = d['t']
+        ctx.cls('opt:' + ('str' if t in ('str', 'strlist', 'strlist_units') else t.replace('list:', '')))
+    want_ph = None
+
+    def call(options, phases_mode):
+        kw = G.reactor_kwargs(dict(spec, options=options))
+        nonlocal want_ph
+        if phases_mode == 'empty':
+            kw['phases'] = []
+        elif phases_mode == 'objects':
+            kw['phases'], want_ph = _reactor_phase_objects()
+        return _quiet(write_yaml, units=units_obj(), **kw)[0]
+
+    ctx.cls('phases_arg:' + spec['phases'])
+    options = dict(spec['options'])
+    phases_mode = spec['phases']
+    text = None
+    try:
+        text = call(options, phases_mode)
+    except Exception as e0:
+        # ---- which supplied value is refused?  each option on its own
+        found = False
+        if phases_mode == 'omitted':
+            try:
+                call({}, 'omitted')
+            except Exception as e:
+                found = True
+                ctx.fail('Y6', {'file': 'reactor_yaml', 'rule': 'Y6', 'entity': 'option', 'field': 'phases',
+                                'value_type': 'omitted', 'units_given': units_given, 'exc': type(e).__name__},
+                         message=str(e)[:200], where=core._tb_where(e))
+                phases_mode = 'empty'
+        for o in list(options):
+            try:
+                call({o: options[o]}, 'empty')
+            except Exception as e:
+                found = True
+                ctx.fail('Y6', _opt_mech(o, options[o], units_given, exc=type(e).__name__), message=str(e)[:200],
+                         where=core._tb_where(e))
+                del options[o]
+        if not found:
+            ctx.fail('Y6', {'file': 'reactor_yaml', 'rule': 'Y6', 'entity': 'option', 'field': 'combination',
+                            'units_given': units_given, 'exc': type(e0).__name__}, message=str(e0)[:200])
+            return
+        try:
+            text = call(options, phases_mode)
+        except Exception as e:
+            ctx.fail('Y6', {'file': 'reactor_yaml', 'rule': 'Y6', 'entity': 'option', 'field': 'combination',
+                            'units_given': units_given, 'exc': type(e).__name__}, message=str(e)[:200])
+            return
+    doc, safe_ok, err = _load_yaml(text)
+    base = {'file': 'reactor_yaml', 'rule': 'Y6', 'entity': 'file', 'units_given': units_given}
+    if doc is None:
+        doc = {}
+        if not ctx.check('Y6', not options and not spec['generic'] and phases_mode != 'objects',
+                         dict(base, what='empty_document')):
+            return
+    if not isinstance(doc, dict):
+        ctx.fail('Y6', dict(base, what='not_a_mapping', exc=err), head=text[-200:])
+        return
+    if safe_ok:
+        ctx.held('Y6')
+    leaves = _flatten({k: v for k, v in doc.items() if k != 'phases'})
+    expected = {}
+    for o, d in options.items():
+        expected[G.REACTOR_OPTIONS[o][0]] = (o, d)
+    generic_paths = {}
+    for sect, dd in spec['generic'].items():
+        for k, v in dd.items():
+            generic_paths[(k if sect == 'misc' else '%s.%s' % (sect, k))] = v
+    if not safe_ok:
+        n_tag = 0
+        for path, node in _tagged_paths(doc):
+            n_tag += 1
+            if '.'.join(map(str, path)) not in expected and not any(
+                    '.'.join(map(str, path)).startswith(p) for p in expected):
+                ctx.fail('Y6', dict(base, what='python_tag', exc=err), path=list(path))
+        if n_tag == 0:
+            ctx.fail('Y6', dict(base, what='not_safe_loadable', exc=err), head=text[-200:])
+    for path, (o, d) in expected.items():
+        if path not in leaves:
+            ctx.fail('Y6', _opt_mech(o, d, units_given, what='missing'), value=d['v'], keys=sorted(leaves))
+            continue
+        _value_ok(ctx, o, d, leaves[path], u, units_given)
+    for path, v in generic_paths.items():
+        ctx.check('Y6', leaves.get(path) == v, dict(base, entity='option', field='generic', what='value'),
+                  got=repr(leaves.get(path)), want=v, path=path)
+    extra = sorted(set(leaves) - set(expected) - set(generic_paths))
+    ctx.check('Y6', not extra, dict(base, entity='option', field='extra_key', what='extra'), got=extra)
+    # ---- phases block
+    m = dict(base, entity='option', field='phases')
+    if phases_mode != 'objects':
+        ctx.check('Y6', 'phases' not in doc, dict(m, what='extra'), got=repr(doc.get('phases'))[:100])
+        return
+    ph = doc.get('phases')
+    if not ctx.check('Y6', isinstance(ph, dict) and set(ph) == set(want_ph), dict(m, what='keys'),
+                     got=repr(ph)[:200]):
+        return
+    for k, want in want_ph.items():
+        got = ph[k]
+        if isinstance(got, dict):
+            got = [got]
+        if not ctx.check('Y6', isinstance(got, list) and len(got) == len(want), dict(m, what='count', group=k),
+                         got=repr(got)[:200]):
+            continue
+        for g, w in zip(got, want):
+            ok = isinstance(g, dict) and g.get('name') == w['name']
+            if ok and w['initial_state'] is not None:
+                try:
+                    ok = _parse_state(g.get('initial_state')) == w['initial_state']
+                except Exception:
+                    ok = False
+            elif ok:
+                ok = 'initial_state' not in g
+            ok = ok and set(g) <= {'name', 'initial_state'}
+            ctx.check('Y6', ok, dict(m, what='value', group=k), got=repr(g)[:200], want=w)
+
+
+# ====================================================================== driver
+def _classes(spec, ctx):
+    ctx.cls('profile:' + spec.get('profile', 'directed'), 'populate:' + spec['populate'], 'units:' + spec['units_as'],
+            'motz:on' if spec['motz_wise'] else 'motz:off', 'first:' + spec['first'])
+    for s in spec['species']:
+        ctx.cls('species:' + s['type'])
+    for r in spec['reactions']:
+        ctx.cls('rxn:adsorption' if r['is_adsorption'] else 'rxn:surface')
+        ctx.cls('ts:none' if r['ts'] is None else ('ts:bep' if 'bep' in r['ts'] else 'ts:species'))
+    if (spec['beps'] or spec['interactions']) and len(spec['phases']) >= 2:
+        ctx.nontrivial()
+
+
+def _run_model(spec, ctx):
+    _classes(spec, ctx)
+    M = _build(spec, ctx)
+    if M is None:
+        return
+    order = [spec['first'], 'yaml' if spec['first'] == 'cti' else 'cti']
+    failed = False
+    for k, which in enumerate(order):
+        if k == 1 and (spec['fresh_second'] or failed):
+            # (a writer that raised leaves half-assigned ids behind: start again from fresh objects)
+            M = _build(spec, ctx)
+            if M is None:
+                return
+        r = _do_cti(spec, M, ctx) if which == 'cti' else _do_yaml(spec, M, ctx)
+        failed = r is False
+
+
+def _fresh_process_state():
+    """A mutable default argument outlives the case that polluted it; every case must see what a fresh
+    interpreter sees, otherwise verdicts depend on case order and replays do not reproduce."""
+    try:
+        from pmutt.omkm.phase import InteractingInterface
+        for d in (InteractingInterface.__init__.__defaults__ or ()):
+            if isinstance(d, list):
+                d.clear()
+    except Exception:
+        pass
+
+
+def run_case(spec, ctx):
+    _fresh_process_state()
+    k = spec['kind']
+    ctx.cls('kind:' + k)
+    if k == 'model':
+        _run_model(spec, ctx)
+    elif k == 'history':
+        _run_history(spec, ctx)
+    elif k == 'reactor':
+        _run_reactor(spec, ctx)
+    else:
+        raise core.HarnessError('unknown case kind %r' % k)
